@@ -248,6 +248,17 @@ def rule_edge(ctx, rep):
 
 # ------------------------------------------------------------------------------------------------ T-EQN
 
+def _loopgraph(ctx):
+    """a subroutine whose body jumps back to its own entry label, and a main program that loops back to its first block"""
+    g = Graph(ctx)
+    g.block("M0", ["top:", "callsub f"]); g.block("M1", ["txn Amount", "bnz top"]); g.block("M2", ["int 1", "return"])
+    g.block("F0", ["f:", "txn Amount", "bz f2"]); g.block("F1", ["b f"]); g.block("F2", ["f2:", "retsub"])
+    g.edge("M0", "M1"); g.edge("M1", "M2"); g.edge("M1", "M0"); g.edge("F0", "F1"); g.edge("F0", "F2"); g.edge("F1", "F0")
+    g.subroutine("main", "M0", ["M0", "M1", "M2"]); g.subroutine("f", "F0", ["F0", "F1", "F2"])
+    g.call("M0", "f")
+    return g, g.function("main", ["f"])
+
+
 def _callgraph(ctx, extra_jump=False, callee_returns=True, two_callers=False):
     """P: entry, conditional jump over the call (optional); C: `callsub f`; R: return point; f: subroutine with two retsub blocks"""
     g = Graph(ctx)
@@ -437,6 +448,20 @@ def rule_worklist(ctx, rep):
     want = {"P": sorted(U), "C": sorted(FA), "R": sorted(U), "F0": sorted(FA), "F1": sorted(FA), "F2": sorted(FA)}
     rep.check(got == want, rule, "forward pass from the entry", where, got, want,
               why="starting from the entry alone, the forward pass must reach callee, return point and jump target with the right refinement")
+    # a block looping back to the subroutine entry is re-evaluated when the entry changes
+    g, fn = _loopgraph(ctx)
+    me = _me(ctx, fn=fn)
+    for bb in g.blocks.values():
+        _call(ctx, me, "_block_level_constraints", [key], bb)
+        _call(ctx, me, "_path_level_constraints", [key], bb)
+    order = [g.blocks[n] for n in ("F1", "F2", "F0", "M2", "M1", "M0")]
+    _call(ctx, me, "forward_analyis", [key], [g.blocks[n] for n in ("M0", "M1", "M2", "F0", "F1", "F2")])
+    _call(ctx, me, "backward_analysis", [key], [b for b in order if b is not g.blocks["M2"]])
+    bc = w.getattr(me, "_block_contexts")[key]
+    got = {n: sorted(bc[bb]) for n, bb in g.blocks.items()}
+    rep.check(all(v == sorted(U) for v in got.values()), rule, "loop back to the entry of a subroutine / of the program", _gen_where(ctx, "backward_analysis"),
+              {n: len(v) for n, v in got.items()}, "every block keeps the full set (accepted executions pass through all of them)",
+              why="a block that jumps back to an entry block must be a predecessor of that entry for the worklist passes")
     # backward: leaf <- return point <- callee / call site <- entry
     g, fn = _callgraph(ctx)
     me = _me(ctx, fn=fn)
